@@ -45,6 +45,9 @@ impl Hasher for IdHasher {
     }
 }
 
+/// harness key whose index (258) shares a store shard with index 2 without colliding with it
+pub const SHARD_MATE: u64 = 1000;
+
 #[derive(Clone, Default)]
 pub struct TabKeys;
 impl KeyBuilder for TabKeys {
@@ -56,6 +59,10 @@ impl KeyBuilder for TabKeys {
     {
         let mut h = IdHasher(0);
         key.hash(&mut h);
+        if h.finish() == SHARD_MATE {
+            // an index of its own that lands in the SHARD of KEYTAB[2] (index 2): 2 + 256 (free-running runs only)
+            return 258;
+        }
         KEYTAB[h.finish() as usize % KEYTAB.len()].0
     }
     fn hash_conflict<Q>(&self, key: &Q) -> u64
@@ -65,6 +72,9 @@ impl KeyBuilder for TabKeys {
     {
         let mut h = IdHasher(0);
         key.hash(&mut h);
+        if h.finish() == SHARD_MATE {
+            return 7;
+        }
         KEYTAB[h.finish() as usize % KEYTAB.len()].1
     }
 }
